@@ -38,7 +38,7 @@ import (
 const (
 	shutdownSlack  = 8 * time.Second  // vs a 60 s stall (sleep 60 ignoring TERM) if the KILL fallback is missing
 	zombieSlack    = 10 * time.Second // an exited child must be reaped by its wait goroutine long before this
-	histWatchdog   = 60 * time.Second
+	histWatchdog   = 100 * time.Second
 	termGrace      = 10 * time.Second // grace used when checking that SIGTERM is delivered before SIGKILL
 	goroutineSlack = 3 * time.Second
 )
@@ -216,6 +216,8 @@ func (l histLogger) Printf(format string, args ...any) {
 type outcome struct {
 	class      string
 	nontrivial bool
+	returned   bool // the master returned (its goroutines must be gone)
+	payload    func() map[string]any
 }
 
 func runHistory(r *mon.Run, idx int, h history) (out outcome) {
@@ -480,13 +482,13 @@ func runHistory(r *mon.Run, idx int, h history) (out outcome) {
 				case <-done:
 				case <-time.After(10 * time.Second):
 				}
-				return outcome{"aborted-zombie", true}
+				return outcome{class: "aborted-zombie", nontrivial: true}
 			}
 		case <-deadline:
 			r.Inconclusive(fmt.Sprintf("case %d: history watchdog (%v) fired; history %+v", idx, histWatchdog, h))
 			r.Event("skipped_watchdog", 1)
 			cleanup(s)
-			return outcome{"aborted-watchdog", false}
+			return outcome{class: "aborted-watchdog"}
 		}
 	}
 
@@ -603,20 +605,15 @@ func runHistory(r *mon.Run, idx int, h history) (out outcome) {
 			}
 		}
 	}
-	// 5. no prefork goroutine of this history survives
-	var leak string
-	for t0 := time.Now(); ; {
-		leak = preforkGoroutines(label)
-		if leak == "" || time.Since(t0) > goroutineSlack {
-			break
-		}
-		time.Sleep(20 * time.Millisecond)
-	}
-	r.Event("goroutine_profiles_checked", 1)
-	if leak != "" {
-		viol("wait-goroutine-leaked", "goroutine started by prefork still exists "+goroutineSlack.String()+" after it returned:\n"+leak)
-	}
+	// 5. "no prefork goroutine of this history survives" is judged per GOMAXPROCS
+	// group (one labelled goroutine profile, see leakedGoroutines) once all its
+	// histories have returned: a profile stops the world, one per history is costly.
+	out.returned = true
+	tLeakDone := time.Now()
 	cleanup(s)
+	if os.Getenv("C39_DEBUG") != "" {
+		fmt.Printf("  hist %d master=%v judge+leak=%v cleanup=%v\n", idx, tReturn.Sub(tStart).Round(time.Millisecond), tLeakDone.Sub(tReturn).Round(time.Millisecond), time.Since(tLeakDone).Round(time.Millisecond))
+	}
 
 	kinds := map[string]bool{}
 	for _, sp := range spawns {
@@ -633,6 +630,7 @@ func runHistory(r *mon.Run, idx int, h history) (out outcome) {
 			liveAtTeardown++
 		}
 	}
+	out.payload = payload
 	out.class = fmt.Sprintf("G=%d thr=%d ri=%v cause=%s kinds=%v rec=%d ign=%v grace0=%v", h.G, h.Threshold, h.IntervalMs > 0, cause, ks, recoveries, ignAliveAtTeardown, h.GraceMs == 0)
 	out.nontrivial = recoveries > 0 || (cause != "over-recovery" && liveAtTeardown > 0)
 	r.Event("recoveries_observed", recoveries)
@@ -643,18 +641,24 @@ func runHistory(r *mon.Run, idx int, h history) (out outcome) {
 	return out
 }
 
-// preforkGoroutines returns the profile records of goroutines that carry this
-// history's label and have a fasthttp/prefork frame on their stack.
-func preforkGoroutines(label string) string {
+var reLabel = regexp.MustCompile(`"c39hist":"(\d+)"`)
+
+// leakedGoroutines returns, per history label, the profile records of goroutines
+// that have a fasthttp/prefork frame on their stack.
+func leakedGoroutines() map[int]string {
 	var buf bytes.Buffer
 	pprof.Lookup("goroutine").WriteTo(&buf, 1)
-	var out []string
+	out := map[int]string{}
 	for _, blk := range strings.Split(buf.String(), "\n\n") {
-		if strings.Contains(blk, `"c39hist":"`+label+`"`) && strings.Contains(blk, "fasthttp/prefork.") {
-			out = append(out, blk)
+		if !strings.Contains(blk, "fasthttp/prefork.") {
+			continue
+		}
+		if m := reLabel.FindStringSubmatch(blk); m != nil {
+			i, _ := strconv.Atoi(m[1])
+			out[i] += blk + "\n\n"
 		}
 	}
-	return strings.Join(out, "\n\n")
+	return out
 }
 
 // cleanup removes whatever the master left behind (after it has been recorded).
@@ -828,6 +832,8 @@ func TestC39(t *testing.T) {
 			continue
 		}
 		runtime.GOMAXPROCS(g)
+		var mu sync.Mutex
+		returned := map[int]outcome{}
 		mon.Parallel(len(idxs), workers, func(k int) {
 			i := idxs[k]
 			t0 := time.Now()
@@ -835,9 +841,35 @@ func TestC39(t *testing.T) {
 			if os.Getenv("C39_DEBUG") != "" {
 				fmt.Printf("hist %d G=%d took %v class=%s\n", i, hs[i].G, time.Since(t0).Round(time.Millisecond), out.class)
 			}
+			if out.returned {
+				mu.Lock()
+				returned[i] = out
+				mu.Unlock()
+			}
 			r.Case(out.class, out.nontrivial)
 			r.Event("histories", 1)
 		})
+		// every master of this group has returned: none of its goroutines may be left
+		// (bounded liveness: a wait goroutine behind a sleeping child stays for >= 60 s)
+		var leaks map[int]string
+		for t0 := time.Now(); ; time.Sleep(50 * time.Millisecond) {
+			leaks = leakedGoroutines()
+			n := 0
+			for i := range leaks {
+				if _, ok := returned[i]; ok {
+					n++
+				}
+			}
+			if n == 0 || time.Since(t0) > goroutineSlack {
+				break
+			}
+		}
+		r.Event("goroutine_profiles_checked", len(returned))
+		for i, blk := range leaks {
+			if out, ok := returned[i]; ok {
+				r.Violation(i, "wait-goroutine-leaked", "goroutine started by prefork still exists "+goroutineSlack.String()+" after it returned:\n"+blk, out.payload())
+			}
+		}
 	}
 	runtime.GOMAXPROCS(prev)
 	if !r.Replaying() {
